@@ -350,6 +350,10 @@ class GraphNode(HyperNode):
         # Check if bound in inner graph
         if original_param in self._graph.inputs.bound:
             return True
+        # A signature default is ONE item, not the collection to map over:
+        # a mapped-over parameter that is not bound has to be supplied
+        if self._map_over and param in self._map_over:
+            return False
         # Check if any inner node has a default
         return any(original_param in inner_node.inputs and inner_node.has_default_for(original_param) for inner_node in self._graph.iter_nodes())
 
